@@ -221,7 +221,7 @@ KNOWN_CTX = {"known": [], "prop": None}
 
 
 def is_tierb(leg):
-    return leg.startswith("quic/")
+    return leg.startswith("quic/") or leg in ("udp", "ssh", "udp6") or leg.endswith("/udp") or leg.endswith("/ssh")
 
 
 def classes_of(res, crashed, err):
